@@ -1083,6 +1083,9 @@ decl(struct scope *s, struct func *f)
 					tentativedefnsend = &d->next;
 				}
 				break;
+			} else if (d->linkage != LINKNONE && d->defined) {
+				/* repeated tentative definition of a thread-local object, which is emitted right away */
+				break;
 			}
 			defineobj(d, init, hasinit, f);
 			break;
